@@ -320,8 +320,13 @@ class C08(Check):
                 d = dict(base, sub='seq')
                 try:
                     calc = Chi2Calculator(fixed.copy(), mc.copy(), [list(r) for r in restr])
+                    buf = order[0].copy()        # ONE array object, overwritten in place before each evaluation of the second half
                     for step, cfg in enumerate(order):
-                        got = float(calc(cfg.copy()))
+                        if step >= len(order) // 2:      # second half of the sequence: always the same object
+                            buf[:] = cfg
+                            got = float(calc(buf))
+                        else:
+                            got = float(calc(cfg.copy()))
                         sr2, sn2, k2, _ = ref_parts(fixed, cfg, restr)
                         w2 = (sr2 + sn2) * 1.1 ** k2
                         R.case(dict(d, step=step), nontrivial=True, cls=tag + '/sequence')
